@@ -711,6 +711,26 @@ pub fn gen_layered(r: &mut Rng) -> Case {
         nodes.push(NodeDef { kind: Kind::Normal, default: kind_default(Kind::Normal), expr: e });
         chain.push(k); prev = k;
     }
+    // sometimes an aggregator on top: an UNORDERED group over the chain's head and one or two siblings
+    // that read an input directly but (almost) never change value — so the aggregator is verified, not
+    // re-executed, while one member of the group reports a changed firewall set and another does not
+    if r.chance(1, 2) {
+        let mut ks = vec![prev];
+        for _ in 0..r.range(1, 2) {
+            let i = *r.pick(&inputs);
+            let k = nodes.len() as u32;
+            nodes.push(NodeDef { kind: Kind::Normal, default: kind_default(Kind::Normal),
+                expr: Expr::IfEq(Box::new(Expr::Read(i)), 7, Box::new(Expr::Const(1)), Box::new(Expr::Const(0))) });
+            ks.push(k);
+        }
+        r.shuffle(&mut ks);
+        let agg = nodes.len() as u32;
+        nodes.push(NodeDef { kind: Kind::Normal, default: kind_default(Kind::Normal), expr: Expr::SumAll(ks) });
+        chain.push(agg);
+        let k = nodes.len() as u32;
+        nodes.push(NodeDef { kind: Kind::Normal, default: kind_default(Kind::Normal), expr: Expr::Read(agg) });
+        chain.push(k); prev = k;
+    }
     let top = prev;
     let p = Program { nodes };
     // history: the same root every epoch (sometimes also an inner node)
